@@ -219,6 +219,9 @@ class CallMixin(ExprMixin):
             st.ghost[th.ghost] = T.list_mk(y.ty, z3.Store(T.list_arr(y), ln, cv.t), ln + T.intval(1).t)
             return [(st, NONEV)]
         if k == "builtin":
+            cm = self.find_call_model(ftext) if not self.spec else None
+            if cm is not None:
+                return self.apply_model(st, cm, None, args, kw, node, ftext)     # e.g. next(iterator, default)
             return self.call_builtin(st, th.name, args, kw, node)
         if k == "method":
             recv = th.recv
@@ -492,6 +495,9 @@ class CallMixin(ExprMixin):
                 has = z3.Select(dom, k.t)
                 oty = ty.v if isinstance(ty.v, Opt) else Opt(ty.v)
                 dflt = T.opt_none(oty) if len(args) < 2 else T.coerce(args[1], oty)
+                if isinstance(ty.v, Ref) and not self.spec:
+                    # a reference stored under a present key denotes an existing object
+                    st.assume(z3.Implies(has, self.ref_valid(st, z3.Select(val, k.t))))
                 some = T.coerce(V(ty.v, z3.Select(val, k.t)), oty)
                 r = V(oty, z3.If(has, some.t, dflt.t), lv=("item", lv, k) if lv else None)
                 return [(st, r)]
